@@ -451,6 +451,27 @@ theorem validate_scalar_ok (H d : Rat) (hH : 0 < H) (hd : 0 < d) :
     linarith
   simp [this]
 
+/-- KNOWN FINDING (findings/C09.json, key `accepted-short-thickness-sequence-drops-atom`): an explicit thickness sequence is
+accepted when its sum is within the `np.isclose` tolerance of the cell height; if the sum is *short*, an atom between the
+sum and the cell top gets label `n` and is silently dropped.  Witness: thicknesses (5, 4.9999) for a 10 Å cell, atom at
+z = 9.99995.  (Full statement that fails: "every atom of an accepted slicing with 0 ≤ z < H has a slice".) -/
+theorem accepted_short_sequence_drops_atom_counterexample :
+    ¬ (∀ (ts : List Rat) (H z : Rat), (validateThickness (.inr ts) H).toOption = some ts → (∀ t ∈ ts, 0 < t) → 0 ≤ z → z < H →
+        label ts z < ts.length) := by
+  intro h
+  have := h [5, 49999/10000] 10 (999995/100000) (by decide +kernel) (by decide +kernel) (by decide +kernel) (by decide +kernel)
+  revert this
+  decide +kernel
+
+/-- KNOWN FINDING (key `accepted-thickness-sequence-sum-ne-height`): the accepted explicit sequence need not sum to the cell
+height (it only has to be `np.isclose`, see `validate_accepts_only_close_sums`). -/
+theorem accepted_sequence_sum_ne_height_counterexample :
+    ¬ (∀ (ts : List Rat) (H : Rat), (validateThickness (.inr ts) H).toOption = some ts → listSum ts = H) := by
+  intro h
+  have := h [5, 500005/100000] 10 (by decide +kernel)
+  revert this
+  decide +kernel
+
 /-! ### non-vacuity -/
 example : sliceIndex [1, 2, 1] [0, 1, 999999999999/1000000000000, 5/2, 3, 4, 7/2]
     = .ok [[0], [1, 2, 3], [4, 6]] := by decide +kernel
